@@ -357,6 +357,11 @@ func commaLed(p *parser, t *token, left *token) *token {
 }
 
 func getType(p *parser) *token {
+	p.Depth++
+	defer func() { p.Depth-- }()
+	if p.Depth > maxNesting {
+		panicf("nested more than %d levels deep", maxNesting)
+	}
 	t := p.Token
 	p.Next()
 	switch t.Symbol {
